@@ -19,16 +19,16 @@ EXPLANATION = (
     "SNA input, option parsing of bin2sna/snapmod beyond the three edit functions.")
 
 def branch_of(fn, var, key):
-    """Body of the `if var == key` / `elif var == key` (or var.startswith(key)) branch in fn."""
+    """Body of the `if var == key` / `elif var == key` (or var.startswith(key)) branch in fn (var None: whatever the variable is called)."""
     for n in ast.walk(fn):
         if isinstance(n, ast.If):
             t = n.test
             for c in ([t] + (list(t.values) if isinstance(t, ast.BoolOp) else [])):
-                if isinstance(c, ast.Compare) and isinstance(c.left, ast.Name) and c.left.id == var and len(c.ops) == 1 and isinstance(c.ops[0], ast.Eq) \
+                if isinstance(c, ast.Compare) and isinstance(c.left, ast.Name) and (var is None or c.left.id == var) and len(c.ops) == 1 and isinstance(c.ops[0], ast.Eq) \
                    and isinstance(c.comparators[0], ast.Constant) and c.comparators[0].value == key:
                     return n.body
                 if isinstance(c, ast.Call) and isinstance(c.func, ast.Attribute) and c.func.attr == 'startswith' and isinstance(c.func.value, ast.Name) \
-                   and c.func.value.id == var and c.args and isinstance(c.args[0], ast.Constant) and c.args[0].value == key:
+                   and (var is None or c.func.value.id == var) and c.args and isinstance(c.args[0], ast.Constant) and c.args[0].value == key:
                     return n.body
     return None
 
@@ -142,8 +142,8 @@ def export_rule(ctx, repo, mod):
         k = key.lower()
         kk = 'ay[' if k.startswith('ay[') else k
         where = 'skoolkit/simutils.py:%d' % line
-        in_z = k in zregs or branch_of(z_state, 'name', kk) is not None
-        in_s = k in sregs or any(branch_of(f, 'name', kk) is not None for f in s_state)
+        in_z = k in zregs or branch_of(z_state, None, kk) is not None
+        in_s = k in sregs or any(branch_of(f, None, kk) is not None for f in s_state)
         problems = []
         if not in_s:
             problems.append('SZX writer has no field for it')
